@@ -260,6 +260,19 @@ func (e *Engine) VerifyFuncCase(key string, targs []string, cf *CaseFix) (rep *F
 	// deferred calls run at every exit
 	for _, r := range fr.returns {
 		c.runDefers(r, fr)
+		if r.panicking && !r.recovered && !r.st.dead() {
+			// nothing stopped the panic: it leaves the function
+			c.safe(r.st, "panic", "false", r.node)
+			r.st.pc = "false"
+		}
+		// deferred closures may have assigned named results
+		for i, rv := range fr.results {
+			if rv != nil && rv.Name() != "" && rv.Name() != "_" && i < len(r.vals) {
+				if _, ok := r.st.vars[rv]; ok && !r.st.dead() {
+					r.vals[i] = c.evalObj(&Env{st: r.st}, rv, fi.Decl)
+				}
+			}
+		}
 	}
 	var states []*State
 	for _, r := range fr.returns {
@@ -381,6 +394,10 @@ func (c *FnCtx) runDefers(r *retRec, fr *inlineFrame) {
 		d := fr.defers[i]
 		if r.st.dead() {
 			return
+		}
+		if d.lit != nil {
+			c.runDeferredClosure(r, fr, d)
+			continue
 		}
 		env := &Env{st: r.st}
 		fun := unparen(d.call.Fun)
